@@ -806,6 +806,20 @@ func (vfs *OrefaFS) Rename(oldname, newname string) error {
 	nAbsPath, _ := vfs.Abs(newname)
 
 	if oAbsPath == nAbsPath {
+		verifYield(&vfs.mu, false)
+		vfs.mu.RLock()
+		oChild, oChildOk := vfs.nodes[oAbsPath]
+		vfs.mu.RUnlock()
+
+		if !oChildOk {
+			return &os.LinkError{Op: op, Old: oldname, New: newname, Err: vfs.err.NoSuchFile}
+		}
+
+		if oChild.mode.IsDir() && vfs.Clean(oldname) == vfs.Clean(newname) && vfs.OSType() != avfs.OsWindows {
+			// os.Rename refuses an existing directory as new name, unless it is the same directory under another name.
+			return &os.LinkError{Op: op, Old: oldname, New: newname, Err: vfs.err.FileExists}
+		}
+
 		return nil
 	}
 
@@ -824,13 +838,36 @@ func (vfs *OrefaFS) Rename(oldname, newname string) error {
 		return &os.LinkError{Op: op, Old: oldname, New: newname, Err: vfs.err.NoSuchFile}
 	}
 
-	if (oChild.mode.IsDir() && nChildOk) || (!oChild.mode.IsDir() && nChildOk && nChild.mode.IsDir()) {
+	if !nParent.mode.IsDir() {
+		return &os.LinkError{Op: op, Old: oldname, New: newname, Err: vfs.err.NotADirectory}
+	}
+
+	if nChildOk && nChild.mode.IsDir() {
 		err := vfs.err.FileExists
 		if vfs.OSType() == avfs.OsWindows {
 			err = avfs.ErrWinAccessDenied
 		}
 
 		return &os.LinkError{Op: op, Old: oldname, New: newname, Err: err}
+	}
+
+	if oChild.mode.IsDir() && strings.HasPrefix(nAbsPath, oAbsPath+string(vfs.PathSeparator())) {
+		// A directory can't be moved into itself.
+		return &os.LinkError{Op: op, Old: oldname, New: newname, Err: vfs.err.InvalidArgument}
+	}
+
+	if oChild.mode.IsDir() && nChildOk {
+		err := vfs.err.NotADirectory
+		if vfs.OSType() == avfs.OsWindows {
+			err = avfs.ErrWinAccessDenied
+		}
+
+		return &os.LinkError{Op: op, Old: oldname, New: newname, Err: err}
+	}
+
+	if nChildOk && nChild == oChild {
+		// oldname and newname are hard links to the same file : nothing to do.
+		return nil
 	}
 
 	verifYield(&nParent.mu, true)
@@ -843,7 +880,15 @@ func (vfs *OrefaFS) Rename(oldname, newname string) error {
 		defer oParent.mu.Unlock()
 	}
 
-	nParent.children[nFileName] = oChild
+	if nChildOk {
+		// the file replaced by oChild loses one link.
+		verifYield(&nChild.mu, true)
+		nChild.mu.Lock()
+		nChild.remove()
+		nChild.mu.Unlock()
+	}
+
+	nParent.addChild(nFileName, oChild)
 
 	delete(oParent.children, oFileName)
 
